@@ -133,7 +133,12 @@ func cleanPath(path string) string {
 			if b[i+1] == '.' && b[i+2] == '.' {
 				s := bytes.LastIndexByte(b[:i], '/')
 				b = append(b[:s+1], b[i+4:]...)
+				// Continue from the previous slash or, if there is none,
+				// from the start.
 				i = s - 1
+				if i < -1 {
+					i = -1
+				}
 			}
 		}
 	}
